@@ -256,6 +256,15 @@ def r5(ctx: Ctx) -> None:
     # no fill call inside the walk itself
     inside = [e for bp in w.body for e in calls(bp.path) if calls_target(e, "Market._execute_orders")]
     ctx.check(not inside, f, w.loop.node, "no fill is executed inside the walk (before the final price is known)", "0 calls", f"{len(inside)} calls")
+    # ... nor before it, on any path of the round: every fill of a round is made by the stage after the walk
+    for p in ctx.paths(EXEC):
+        if p.exit[0] == "raise":
+            continue
+        wl = [e for e in p.events if e.kind == "loop" and e.loopkind == "while"]
+        cut = p.events.index(wl[0]) if wl else len(p.events)
+        early = [e for e in p.events[:cut] if e.kind == "call" and calls_target(e, "Market._execute_orders")]
+        if early:
+            ctx.violated(f, early[0].node, "every fill of a round is made after the walk, at the walk's final price", "no _execute_orders before the walk", f"{len(early)} fill(s) made before the walk (priced by their own pair): a round can then carry two prices")
     # _execute_orders records exactly the price it is given
     g = ctx.func("Market._execute_orders")
     for p in normal_paths(ctx.paths(g.qualname)):
